@@ -1,3 +1,4 @@
-import DosModel.Model.Util
--- stub: no model driver for this property yet
-def main : IO Unit := Dos.lineLoop (fun _ => "unimplemented")
+import DosModel.Model.Dispatch
+import DosModel.Gen.P2PFlow
+def main : IO Unit :=
+  Dos.lineLoop (Dos.Dispatch.driverStep (Dos.Gen.handshakeDeadline && Dos.Gen.mergeErrorsReleases))
